@@ -25,6 +25,7 @@ RULE = (
     "Non-trivial: the graph has >= 1 nested graph or gate; distinct = (program shape); states counted separately."
     ' Also: Mermaid declarations counted (no node declared twice); directed shapes: a value name private to one container and exposed by a sibling next to an output whose name contains it; names whose glued diagram ids collide.'
     ' Directed: a value private to a nested graph whose name is also a plain input of the enclosing graph.'
+    ' Directed self-consistency with hide=True nodes (also the hidden first entry node of a gated container); ordering edges whose name-derived edge ids coincide.'
 )
 ASSUMPTIONS = [
     "edges whose endpoint is hidden in a state are ignored on the drawn side (inputs owned by a collapsed container are declared but hidden by design)",
@@ -693,7 +694,14 @@ def colliding_id_specs():
     def fn(name, params, out):
         return {"k": "fn", "name": name, "params": [{"n": p} for p in params], "outs": [out]}
 
-    return [
+    def fnx(name, params, out, **kw):
+        return {"k": "fn", "name": name, "params": [{"n": p} for p in params], "outs": [out], **kw}
+
+    extra = [
+        # ordering edges whose name-derived EDGE ids coincide (fetch -> raw_store and fetch_raw -> store): both are drawn
+        {"name": "ids4", "nodes": [fnx("fetch", ["u"], "f1", emit=["sig_a"]), fnx("raw_store", ["v"], "f2", wait=["sig_a"]), fnx("fetch_raw", ["w"], "f3", emit=["sig_b"]), fnx("store", ["z"], "f4", wait=["sig_b"])], "bind": {}},
+    ]
+    return extra + [
         {"name": "ids1", "nodes": [fn("f", ["a_b", "c"], "o1"), fn("g", ["a", "b_c"], "o2")], "bind": {}},
         {"name": "ids2", "nodes": [fn("f", ["group_a_b"], "o1"), fn("g", ["a", "b"], "o2")], "bind": {}},
         {"name": "ids3", "nodes": [{"k": "sub", "name": "mid", "prog": {"name": "mid", "nodes": [fn("deep", ["q"], "x1")], "bind": {}}}, fn("mid__deep", ["z"], "x2")], "bind": {}},
@@ -767,6 +775,7 @@ def hidden_node_consistency(ctx):
         "hidden-middle": lambda: Graph([fn("f", ["x"], "a"), fn("hm", ["a"], "b", True), fn("g", ["b"], "r")], name="h2"),
         "hidden-last": lambda: Graph([fn("f", ["x"], "a"), fn("hl", ["a", "z"], "r", True)], name="h3"),
         "hidden-inside-nested": lambda: Graph([Graph([fn("p", ["x"], "m", True), fn("q", ["m", "w"], "n")], name="inner").as_node(), fn("use", ["n"], "r")], name="h4"),
+        "hidden-entry-of-gated-container": lambda: Graph([IfElseNode(lambda flag: True, when_true="sub", when_false="skip", name="pick"), Graph([fn("load_cfg", ["x"], "cfg", True), fn("work", ["cfg", "y"], "done")], name="sub").as_node(), fn("skip", ["x"], "skipped")], name="h6"),
         "hidden-gate": lambda: Graph([IfElseNode(lambda x: True, when_true="a", when_false="b", name="pick", hide=True), fn("a", ["x"], "ra"), fn("b", ["x"], "rb")], name="h5"),
     }
     for label, mk in shapes.items():
